@@ -15,6 +15,9 @@ CLAIMS = {
  "C04": dict(design="5/C04", tech=E1,
    text="Every history of <=3 (quick) / <=4 steps over {startTestRun, stopTestRun, stop(), a test with each outcome} x 10 result stacks x failfast {off, set before wrapping, set after wrapping}: wasSuccessful() and shouldStop are compared with a 3-variable reference after every call on the outer object and every underlying result; TextTestResult's summary is parsed (count, OK xor FAILED(failures=K), one section per problem); real suites of three generated TestCases stop dispatching under failfast; TestProgram/TestToolsTestRunner in-process: SystemExit status and summary. Exhaustive within the bound.",
    note="In-process SystemExit instead of a subprocess exit status; verdict of non-testtools targets and of ExtendedToStreamDecorator not demanded."),
+ "C05": dict(design="5/C05", tech=E1 + "; symbolic detail payload bytes",
+   text="Two factor harnesses over generated programs: (names) 0..2 user details with names that collide with generated ones, symbolic binary payloads in 1..2 chunks, fixture details (own/colliding name, failing setUp), expectThat/assertThat mismatch details; (accounting) up to 2 (quick)/3 raising stages over 7 behaviours with 0..2 addOnException handlers. The details dict delivered with the single outcome must contain every user/fixture/mismatch detail with identical bytes, the skip reason, one traceback detail per failure/error raised by user code (MultipleExceptions constituents and the assertion behind an expected failure counted), and each handler called once per exception before the outcome. Exhaustive within the bound.",
+   note="Names are a finite alphabet (names are built by %-formatting concrete strings); user details are attached before the framework generates a detail of that name."),
  "C06": dict(design="5/C06", tech=E1 + "; unbounded symbolic int parameters and matchees",
    text="Matcher expression trees (all depth<=1 trees over the full alphabet, all 3964 depth-2 trees over a reduced alphabet; sequence, dict and structure combinators over leaf matchers) are built from selector opcodes; leaf parameters and matchees are unbounded symbolic ints, so each explored path covers every integer satisfying its path condition; verdict is compared with a denotational evaluator, plus determinism and non-modification.",
    note="Ints are wrapped in an opaque ordered value (constant repr) so that message formatting does not fork on digits; regex/doctest/filesystem/warnings leaves are outside the claim."),
